@@ -1,6 +1,6 @@
 """Single source for MANIFEST.json (tools/gen_manifest.py)."""
 
-SETUP_CMD = "python3-vt -m compileall -q pyvc contracts >/dev/null 2>&1; mkdir -p evidence replay; true"
+SETUP_CMD = "python3-vt -m compileall -q pyvc contracts >/dev/null 2>&1; mkdir -p evidence replay; (cd lean && lean OmLemmas.lean >/dev/null 2>&1); true"
 HOOKS = {
     "guard": "OPENMDAO_VERIF",
     "enable": "no hooks are needed: checks read /repo's working tree as text (pyvc) and import it under /venv/bin/python for native replays; the guard name is reserved and unused",
@@ -24,7 +24,7 @@ NOT_APPLICABLE = {
     'C31': "frame condition over the entire framework along API-call histories; per-function frames are proved where they live (C12, C33)",
     'C34': "derivatives come from jax AD / generated code; nothing to put under contract",
 }
-for _p in ['C02','C03','C04','C05','C07','C08','C11','C12','C15','C16','C21','C23','C25','C26','C29','C32']:
+for _p in ['C02','C03','C04','C05','C07','C08','C11','C12','C15','C16','C21','C23','C26','C29','C32']:
     NOT_APPLICABLE.setdefault(_p, NA_DEFAULT)
 
 CLAIMED = {
@@ -73,4 +73,9 @@ CLAIMED = {
         design_ref="DESIGN.md section 3 C30",
         note="Trusted: pyvc, z3, dual-number reading of complex step (A3), the derivative table for sqrt and the stated facts about tanh/atan2 (uninterpreted functions with true axioms: pyvc/trans.py); NumPy-2 complex sign modelled as in pyvc/builtins.py. Not covered: derivatives of the jax helpers (obtained by jax AD), exact agreement of smooth helpers with non-smooth NumPy functions (they are approximations by design).",
         technique="deductive verification: dual-number symbolic execution of real source -> VCs -> z3 (QF_NRA + UF); canaries + native complex-step sampling (h=1e-40)"),
+    'C25': dict(
+        text="Proof that the jax ks_max / ks_min compute m +- (1/rho) log Sum exp(+-rho (g_k - m)) around the attained extremum m and that the result lies in [max g, max g + ln(n)/rho] (mirrored for the minimum), for every array length, every g (ties, any magnitude) and every rho > 0. exp/log/finite sums are uninterpreted in the SMT proof; the facts used about them (sum of terms in [0,1] with a unit term lies in [1,n]; the KS bracket; shift invariance of log-sum-exp) are machine-checked in Lean 4 / Mathlib (lean/OmLemmas.lean). The NumPy KSfunction/KSComp (2-d axis reductions, upper / lower_flag / minimum, partials vs complex step) is decided only in a BOUNDED exhaustive tier and reported as bounded.",
+        design_ref="DESIGN.md section 3 C25",
+        note="Trusted: pyvc, z3, Lean kernel + Mathlib; the hand correspondence between pyvc's Sum/exp/log facts (pyvc/npmodel.py np_sum, pyvc/trans.py) and the Lean statements; reals for floats (exp overflow not modelled); jit assumed semantics-preserving. Not covered by proof: gradients of the jax functions (jax AD), the NumPy KSfunction and KSComp option handling (bounded tier only).",
+        technique="deductive verification (pyvc -> z3) + Lean 4/Mathlib lemmas for sums/exp/log; bounded exhaustive native tier for KSComp"),
 }
